@@ -308,6 +308,46 @@ def twin_families(rng, thorough):
                 line = call_text(dev, method, params, how, rng)
                 members.append({"src": twin_program(cls, ctor, dev, line, depth_kind), "spelling": how, "depth": depth_kind, "dev": dev, "call": line})
             fams.append({"what": f"{cls}.{method} {how} at every depth", "members": members})
+            # (f) one argument changed (a key that forgets an argument)
+            base_how = "int"
+            members = [{"src": twin_program(cls, ctor, "dv", call_text("dv", method, params, base_how, rng), "top"), "spelling": base_how, "depth": "top", "dev": "dv",
+                        "call": call_text("dv", method, params, base_how, rng)}]
+            for j, (pn, default, v, kwonly) in enumerate(params):
+                if isinstance(v, int) and not isinstance(v, bool):
+                    changed = list(params)
+                    changed[j] = (pn, None if default != "omit" else default, v + 1, kwonly)
+                    line = call_text("dv", method, changed, base_how, rng)
+                    members.append({"src": twin_program(cls, ctor, "dv", line, "top"), "spelling": f"{pn}+1", "depth": "top", "dev": "dv", "call": line})
+            if len(members) >= 2:
+                fams.append({"what": f"{cls}.{method} with one argument changed", "members": members[:5]})
+    # (e) one pin, several device classes / one class, several pins and names (a table keyed by pin or by name alone)
+    for pin_ in (13, 9):
+        members = []
+        for nm in ("dv", "x1"):
+            for decl, use in (("Led({p})", "{x}.on()"), ("Buzzer({p})", "{x}.beep()"), ("Button({p})", "q_ = {x}.is_pressed()"), ("Servo({p})", "{x}.write(90)"),
+                              ("Led({q})", "{x}.on()"), ("Buzzer({q})", "{x}.stop()")):
+                line = f"{nm} = " + decl.format(p=pin_, q=pin_ + 1) + "\n" + use.format(x=nm)
+                members.append({"src": IMPORTS + line + "\nwhile True:\n    sleep(5)\n", "spelling": decl.format(p=pin_, q=pin_ + 1), "depth": "top", "dev": nm, "call": line})
+        rng.shuffle(members)
+        fams.append({"what": f"pin {pin_} in several device classes", "members": members[:7]})
+    # (d) whole sources that agree up to white space, comments, line ends: DIFFERENT programs (or the same one written differently)
+    base = ["led_ = Led(13)", "cnd = 1", "if cnd > 0:", "    led_.on()", "    cnd = 2", "while True:", "    led_.toggle()", "    sleep(5)"]
+
+    def src_of(lines, nl="\n", tail=True):
+        return IMPORTS + nl.join(lines) + (nl if tail else "")
+    ws = [("as it is", src_of(base)),
+          ("last statement of the if body dedented", src_of(base[:4] + ["cnd = 2"] + base[5:])),
+          ("CRLF line ends", src_of(base, nl="\r\n")),
+          ("no final newline", src_of(base, tail=False)),
+          ("trailing blanks", src_of([l + "  " for l in base])),
+          ("blank lines", src_of([x for l in base for x in (l, "")])),
+          ("two-space indent", src_of([l.replace("    ", "  ") for l in base])),
+          ("tab indent", src_of([l.replace("    ", "\t") for l in base])),
+          ("comments", src_of([l + "  # " + l.strip() for l in base])),
+          ("comment lines that look like code", src_of([x for l in base for x in ("# cnd = 3", l)])),
+          ("spaces inside the statements", src_of([l.replace(" = ", "=").replace("(", "( ").replace(")", " )") if "while" not in l and "if" not in l else l for l in base]))]
+    fams.append({"what": "one source up to white space / comments / line ends", "members": [{"src": t, "spelling": w, "depth": "", "dev": "", "call": w} for w, t in ws[:7]]})
+    fams.append({"what": "one source up to white space / comments / line ends (2)", "members": [{"src": t, "spelling": w, "depth": "", "dev": "", "call": w} for w, t in ws[:2] + ws[7:]]})
     # (c) plain statements: literals and sleeps in equal-valued spellings, strings that look like numbers
     for vals in (["100", "100.0", "50 * 2", "True + 99", "1e2"], ["1", "1.0", "True", "2 - 1"], ["0", "0.0", "False", "-0.0", "0 * 5"],
                  ['"100"', "'100'", '"10" + "0"'], ["[1, 2]", "[1.0, 2.0]", "[True, 2]"]):
